@@ -85,8 +85,8 @@ func c11RealPipe(res *hx.Result, hang time.Duration, reps int) {
 					}
 				}
 				_ = t0
-				peer.Close()
-				clientEP.Close()
+				c11CloseBounded(peer)
+				c11CloseBounded(clientEP)
 				res.Count(desc, true)
 				res.Dist("real-pipe:" + side)
 			}
